@@ -26,6 +26,9 @@ ABS = -1
 NOVAL = {"v": ABS, "p": ""}
 NOSTR = {"v": "", "p": ""}
 NODEFECT = {"k": "none", "c": 0, "e": 0, "t": 0}
+NOX = {"p": "", "d": ABS, "comma": True}
+XSETTING = "my-setting"  # a setting the schema does not constrain
+XCODES = {-2: False, -3: "", -4: True}  # supplied values of macro parameters that are not numbers
 TASK_NUM = ["clients", "wi", "it", "wtp", "tp", "ru", "tput", "bulk"]
 EL_NUM = ["cap", "wi", "it", "wtp", "tp", "ru"]
 KEY = {"clients": "clients", "cap": "clients", "wi": "warmup-iterations", "it": "iterations", "wtp": "warmup-time-period", "tp": "time-period", "ru": "ramp-up-time-period"}
@@ -102,26 +105,42 @@ def _dump_texts(path):
             yield text
 
 
-def sample_dump(path, quotas, default_quota, seed, crosscheck=5):
+def _plain(text):
+    """a state without supplied parameters, included parts, corpora, parallel elements and macro uses"""
+    return "supN |-> {}" in text and "supS |-> {}" in text and "parts |-> {}" in text and "corpora |-> <<>>" in text and "par |-> TRUE" not in text and 'p |-> "x' not in text
+
+
+def sample_dump(path, quotas, default_quota, seed, crosscheck=5, keep_special=("none",)):
     """Two streaming passes over a TLC -dump file. Pass 1 counts the states per verdict label (variable `violated`);
     pass 2 parses the states selected by a hash of their text (TLC prints a state identically whatever the exploration
     order), with probability quota/count per label. Returns (selected states sorted canonically, counts per label, #states)."""
     counts = {}
+    plain = {}
     n = 0
     for text in _dump_texts(path):
         m = _LABEL.search(text)
         if not m:
             raise tlc.MachineryError("trackgen: state without verdict label: %r" % text[:120])
         counts[m.group(1)] = counts.get(m.group(1), 0) + 1
+        if m.group(1) in keep_special and _plain(text):
+            plain[m.group(1)] = plain.get(m.group(1), 0) + 1
         n += 1
     picked = []
     k = 0
     for text in _dump_texts(path):
         label = _LABEL.search(text).group(1)
         quota = quotas.get(label, default_quota)
-        if counts[label] > quota:
+        total = counts[label]
+        if label in keep_special:
+            # valid files with parameters / parts / corpora / parallel elements / macros are always replayed, the quota
+            # applies to the plain rest
+            if not _plain(text):
+                quota = total
+            else:
+                total = plain.get(label, 0)
+        if total > quota:
             h = int(hashlib.sha1(("%d|" % seed).encode() + " ".join(text.split()).encode()).hexdigest()[:12], 16)
-            if (h % 1000000) >= 1000000.0 * quota / counts[label]:
+            if (h % 1000000) >= 1000000.0 * quota / total:
                 continue
         st = parse_state(text)
         if k < crosscheck:
@@ -183,9 +202,17 @@ class _Ser:
             keys = list(o.keys())
             if self.shuffle:
                 self.rnd.shuffle(keys)
-            if not keys:
+            tail = None
+            if "__raw_tail__" in keys:
+                # template text after the last entry, not preceded by a comma (the helper macro writes its own)
+                keys.remove("__raw_tail__")
+                tail = str(o["__raw_tail__"])
+            if not keys and tail is None:
                 return "{}"
-            return "{\n" + ",\n".join("%s  %s: %s" % (pad, json.dumps(k), self.dump(o[k], ind + 2)) for k in keys) + "\n" + pad + "}"
+            body = ",\n".join("%s  %s: %s" % (pad, json.dumps(k), self.dump(o[k], ind + 2)) for k in keys)
+            if tail is not None:
+                body += ("\n" if body else "") + pad + "  " + tail
+            return "{\n" + body + "\n" + pad + "}"
         if isinstance(o, list):
             if not o:
                 return "[]"
@@ -195,6 +222,24 @@ class _Ser:
     def items(self, lst, ind=0):
         """comma separated items without the enclosing brackets (content of an included part)"""
         return ",\n".join(self.dump(x, ind) for x in lst)
+
+
+def _macro(op_obj, x):
+    """{{ rally.exists_set_param(...) }} in an operation object: with comma=True after the last entry of the operation,
+    with comma=False as the only entry of its "body" object (so that the file is valid JSON whether or not the setting is emitted)"""
+    if not x["p"]:
+        return
+    args = '"%s", %s' % (XSETTING, x["p"])
+    if x["d"] != ABS:
+        args += ", default_value=%d" % x["d"]
+    if x["comma"]:
+        op_obj["__raw_tail__"] = Raw("{{ rally.exists_set_param(%s) }}" % args)
+    else:
+        op_obj["body"] = {"__raw_tail__": Raw("{{ rally.exists_set_param(%s, comma=False) }}" % args)}
+
+
+def uses_macro(F):
+    return any(o["xp"]["p"] for o in F["ops"]) or any(t["xp"]["p"] for ch in F["chals"] for el in ch["sched"] for t in el["tasks"])
 
 
 def _task_obj(t, d, pos, style):
@@ -207,6 +252,7 @@ def _task_obj(t, d, pos, style):
             op["name"] = t["op"]
         if _is_set(t["bulk"]):
             op["bulk-size"] = _num(t["bulk"])
+        _macro(op, t["xp"])
         if d["k"] == "inlNoType" and pos == (d["c"], d["e"], d["t"]):
             del op["operation-type"]
         o["operation"] = op
@@ -364,6 +410,7 @@ def render(F, root, style=None):
             o = {"name": op["name"], "operation-type": op["type"]}
             if _is_set(op["bulk"]):
                 o["bulk-size"] = _num(op["bulk"])
+            _macro(o, op["xp"])
             if d["c"] == oi + 1:
                 if d["k"] == "opNoName":
                     del o["name"]
@@ -406,7 +453,7 @@ def render(F, root, style=None):
             else:
                 top["challenges"] = chs
     text = ser.dump(top)
-    if F["parts"]:
+    if F["parts"] or uses_macro(F):
         text = '{% import "rally.helpers" as rally with context %}\n' + text
     files["track.json"] = text + "\n"
     for rel, content in files.items():
@@ -420,7 +467,7 @@ def render(F, root, style=None):
 def supplied_params(F):
     params = {}
     for s in F["supN"]:
-        params[s["p"]] = s["v"]
+        params[s["p"]] = XCODES.get(s["v"], s["v"])
     for s in F["supS"]:
         params[s["p"]] = s["v"]
     return params
@@ -535,6 +582,16 @@ def _s(v):
     return v
 
 
+def _x(v):
+    """value of the macro-written setting: int, or the code of false / "" / true, Abs if the setting is absent"""
+    if v is None:
+        return -99
+    for code, val in XCODES.items():
+        if type(v) is type(val) and v == val:
+            return code
+    return _i(v)
+
+
 def _proj_task(t):
     op = t.operation
     try:
@@ -551,7 +608,9 @@ def _proj_task(t):
     tags = t.tags
     core = {
         "name": _s(t.name),
-        "op": {"name": _s(op.name), "type": _s(op.type), "bulk": _i(op.params.get("bulk-size") if isinstance(op.params, dict) else -99)},
+        "op": {"name": _s(op.name), "type": _s(op.type), "bulk": _i(op.params.get("bulk-size") if isinstance(op.params, dict) else -99),
+               "xs": _x(op.params[XSETTING]) if XSETTING in op.params else ABS,
+               "xb": _x(op.params["body"][XSETTING]) if isinstance(op.params.get("body"), dict) and XSETTING in op.params["body"] else ABS},
         "clients": _i(t.clients),
         "wi": _i(t.warmup_iterations),
         "it": _i(t.iterations),
@@ -644,8 +703,15 @@ def _val(rnd, values, params, pprob=0.2):
     return {"v": v, "p": ""}
 
 
+XPARAMS = ["x1", "x2", "use_cache"]
+
+
+def _rand_x(rnd):
+    return {"p": rnd.choice(XPARAMS), "d": rnd.choice([ABS, ABS, 0, 5, 30]), "comma": rnd.random() < 0.6}
+
+
 def _rand_task(rnd, types, opnames, mode, par_mode, noisy):
-    t = {"name": dict(NOSTR), "opk": "str", "op": "", "type": "", "unit": "", "tags": []}
+    t = {"name": dict(NOSTR), "opk": "str", "op": "", "type": "", "unit": "", "tags": [], "xp": dict(NOX)}
     for k in TASK_NUM:
         t[k] = dict(NOVAL)
     r = rnd.random()
@@ -659,6 +725,8 @@ def _rand_task(rnd, types, opnames, mode, par_mode, noisy):
         t["op"] = rnd.choice(["", ""] + NAMES)
         if rnd.random() < 0.3:
             t["bulk"] = _val(rnd, [1, 500, 5000, 100000], NPARAMS)
+        if rnd.random() < 0.2:
+            t["xp"] = _rand_x(rnd)
     if rnd.random() < 0.5:
         t["name"] = {"v": rnd.choice(NAMES + ["t%d" % rnd.randint(1, 9)]), "p": rnd.choice(SPARAMS) if rnd.random() < 0.15 else ""}
     if rnd.random() < 0.5:
@@ -694,7 +762,7 @@ def random_file(rnd, types):
     opnames = []
     for _ in range(rnd.choice([0, 1, 2, 3])):
         name = rnd.choice(NAMES[:5]) if rnd.random() < noisy else "op%d" % (len(opnames) + 1)
-        F["ops"].append({"name": name, "type": rnd.choice(types), "bulk": _val(rnd, [-1, -1, 100, 5000], NPARAMS) if rnd.random() < 0.5 else dict(NOVAL)})
+        F["ops"].append({"name": name, "type": rnd.choice(types), "bulk": _val(rnd, [-1, -1, 100, 5000], NPARAMS) if rnd.random() < 0.5 else dict(NOVAL), "xp": _rand_x(rnd) if rnd.random() < 0.35 else dict(NOX)})
         opnames.append(name)
     for o in F["ops"]:
         if o["bulk"]["v"] == -1:
@@ -803,7 +871,10 @@ def random_file(rnd, types):
     usedp = sorted(_used_params(F))
     for p in usedp:
         if rnd.random() < 0.5:
-            if p in SPARAMS:
+            if p in XPARAMS:
+                # falsy values as often as truthy ones
+                F["supN"].append({"p": p, "v": rnd.choice([0, 0, -2, -2, -3, -4, 7, 300])})
+            elif p in SPARAMS:
                 F["supS"].append({"p": p, "v": rnd.choice(NAMES[:3] + ["sup-task"])})
             else:
                 F["supN"].append({"p": p, "v": rnd.choice([1, 2, 7, 300, 86400])})
@@ -830,7 +901,9 @@ def _used_params(F):
             for t in el["tasks"]:
                 used.update(t[k]["p"] for k in TASK_NUM)
                 used.add(t["name"]["p"])
+                used.add(t["xp"]["p"])
     used.update(o["bulk"]["p"] for o in F["ops"])
+    used.update(o["xp"]["p"] for o in F["ops"])
     for k in F["corpora"]:
         used.update(d["count"]["p"] for d in k["docs"])
     used.update(F["refs"])
@@ -916,5 +989,5 @@ def size(F):
         for el in ch["sched"]:
             n += sum(1 for k in EL_NUM if el[k] != NOVAL) + bool(el["cb"])
             for t in el["tasks"]:
-                n += 1 + sum(1 for k in TASK_NUM if t[k] != NOVAL) + (t["name"] != NOSTR) + bool(t["tags"])
+                n += 1 + sum(1 for k in TASK_NUM if t[k] != NOVAL) + (t["name"] != NOSTR) + bool(t["tags"]) + bool(t["xp"]["p"])
     return n - 1
